@@ -19,6 +19,7 @@ type cEnv map[ssa.Value]int64
 type cPath struct {
 	env    cEnv
 	counts map[string]int // rule-defined event counters
+	events []string       // rule-defined trace (observe hook), in execution order
 	ret    *ssa.Return    // nil when the path ended in a panic
 }
 
@@ -28,6 +29,8 @@ type cEval struct {
 	seed func(v ssa.Value) (int64, bool)
 	// event names an instruction the rule counts per path ("" = not counted)
 	event func(in ssa.Instruction) string
+	// observe may return a trace entry for an instruction, using the values known on this path
+	observe func(in ssa.Instruction, val func(ssa.Value) (int64, bool)) string
 	// maxVisits bounds the visits of one block on one path; exceeded = undecided
 	maxVisits int
 	maxPaths  int
@@ -181,6 +184,7 @@ func (e *cEval) run() {
 		env    cEnv
 		counts map[string]int
 		visits map[*ssa.BasicBlock]int
+		events []string
 	}
 	cp := func(m cEnv) cEnv {
 		n := make(cEnv, len(m))
@@ -204,6 +208,7 @@ func (e *cEval) run() {
 		return n
 	}
 	work := []frame{{b: e.fn.Blocks[0], env: cEnv{}, counts: map[string]int{}, visits: map[*ssa.BasicBlock]int{}}}
+	cpe := func(ev []string) []string { return append([]string(nil), ev...) }
 	for len(work) > 0 {
 		f := work[len(work)-1]
 		work = work[:len(work)-1]
@@ -251,30 +256,36 @@ func (e *cEval) run() {
 					f.counts[n]++
 				}
 			}
+			if e.observe != nil {
+				env := f.env
+				if t := e.observe(in, func(v ssa.Value) (int64, bool) { return e.val(env, v) }); t != "" {
+					f.events = append(f.events, t)
+				}
+			}
 			switch x := in.(type) {
 			case *ssa.Return:
-				e.paths = append(e.paths, cPath{env: f.env, counts: f.counts, ret: x})
+				e.paths = append(e.paths, cPath{env: f.env, counts: f.counts, events: f.events, ret: x})
 				ended = true
 			case *ssa.Panic:
-				e.paths = append(e.paths, cPath{env: f.env, counts: f.counts})
+				e.paths = append(e.paths, cPath{env: f.env, counts: f.counts, events: f.events})
 				ended = true
 			case *ssa.If:
 				c, ok := e.val(f.env, x.Cond)
 				switch {
 				case ok && c != 0:
-					work = append(work, frame{f.b.Succs[0], f.b, f.env, f.counts, f.visits})
+					work = append(work, frame{f.b.Succs[0], f.b, f.env, f.counts, f.visits, f.events})
 				case ok:
-					work = append(work, frame{f.b.Succs[1], f.b, f.env, f.counts, f.visits})
+					work = append(work, frame{f.b.Succs[1], f.b, f.env, f.counts, f.visits, f.events})
 				default:
 					// unknown: both, and remember what the edge established for a comparison result
 					e1, e0 := cp(f.env), cp(f.env)
 					e1[x.Cond], e0[x.Cond] = 1, 0
-					work = append(work, frame{f.b.Succs[0], f.b, e1, cpi(f.counts), cpv(f.visits)})
-					work = append(work, frame{f.b.Succs[1], f.b, e0, cpi(f.counts), cpv(f.visits)})
+					work = append(work, frame{f.b.Succs[0], f.b, e1, cpi(f.counts), cpv(f.visits), cpe(f.events)})
+					work = append(work, frame{f.b.Succs[1], f.b, e0, cpi(f.counts), cpv(f.visits), cpe(f.events)})
 				}
 				ended = true
 			case *ssa.Jump:
-				work = append(work, frame{f.b.Succs[0], f.b, f.env, f.counts, f.visits})
+				work = append(work, frame{f.b.Succs[0], f.b, f.env, f.counts, f.visits, f.events})
 				ended = true
 			default:
 				e.step(f.env, in)
